@@ -337,6 +337,10 @@ def _scenarios(ctx, work, spec, tier, rng):
                 o = {}
                 if spec.get("opts"):
                     o = spec["opts"](rng, s["cfg"], v)
+                if g.get("simulate") and rng.random() < 0.3:
+                    # a sibling document (one setting changed) is encoded by the same process just before
+                    o = dict(o)
+                    o["sibling"] = rng.choice(["nrow", "paper", "font", "rows"])
                 if g.get("prefixes") and rng.random() < g["prefixes"] and s["cfg"]["n"] >= 2:
                     o = dict(o)
                     o["prefixes"] = True
